@@ -18,9 +18,17 @@ pub struct AwesomeOscillator {
 	lows: u32,
 	highs: u32,
 	x: CrossD,
+	/// implementation reading (recorded discrepancy): the pivot direction is inverted (swing highs counted as lows)
+	follow_impl: bool,
 }
 
 pub fn make(cfg: &Cfg, c0: &RC) -> Option<Box<dyn IndRef>> {
+	build(cfg, c0, false)
+}
+pub fn make_alt(cfg: &Cfg, c0: &RC) -> Option<Box<dyn IndRef>> {
+	build(cfg, c0, true)
+}
+fn build(cfg: &Cfg, c0: &RC, follow_impl: bool) -> Option<Box<dyn IndRef>> {
 	let src = cfg.src("source");
 	let s0 = source(c0, &src);
 	Some(Box::new(AwesomeOscillator {
@@ -33,6 +41,7 @@ pub fn make(cfg: &Cfg, c0: &RC) -> Option<Box<dyn IndRef>> {
 		highs: 0,
 		x: CrossD::new(0.0),
 		src,
+		follow_impl,
 	}))
 }
 
@@ -45,6 +54,7 @@ impl IndRef for AwesomeOscillator {
 		let v = own[0];
 		// +1: a lower peak (swing low) is confirmed now, -1: a higher peak (swing high)
 		let r = self.rev.step(v);
+		let r = if self.follow_impl { -r } else { r };
 		// † follows the implementation: peaks are counted when they are confirmed (`right` steps after
 		// the extremum); a count lasts as long as the value stays on its side of the zero line (a value
 		// of exactly 0 belongs to both sides) and is NOT cleared by a signal: once `conseq_peaks` is
